@@ -253,7 +253,8 @@ func resolverReplay(e *env) error {
 		// --- deprecated struct API (order as the runtime picks it) ---
 		db := buildDB(c.Book, names, c.Order, unit)
 		visited = visited[:0]
-		err := resolver.NewResolver(db, cfg).Resolve()
+		rs := resolver.NewResolver(db, cfg)
+		err := rs.Resolve()
 		e.sum.Runs++
 		if (err == nil) != (c.Status == "ok") || (err != nil && !isDepthErr(err)) {
 			e.mismatch("resolver-status-deprecated-api", "resolver/resolver.go", fmt.Sprintf("Resolver.Resolve(N=%d) returned err=%v, specification predicts %s", c.N, err, c.Status),
@@ -261,6 +262,44 @@ func resolverReplay(e *env) error {
 		} else if err == nil {
 			if d := compareDB(db, c.DB, names, unit); d != "" {
 				e.mismatch("resolver-value-deprecated-api", "resolver/resolver.go", d, map[string]interface{}{"case": c, "names": names, "unit": unit})
+			}
+		}
+		// the same Resolver value used again after the book has changed (a recipe gains an ingredient that is a
+		// new recipe): the second Resolve must give what a fresh resolver gives for that book
+		if err == nil && len(c.Book) > 0 && c.N >= 4 {
+			first := names[c.Book[0].Name]
+			extra := &shared.DBNode{Header: "zz extra recipe", Elements: shared.NewElements()}
+			extra.Elements.Add("zz extra leaf", 2)
+			extra.Elements.Add(names[c.Book[len(c.Book)-1].Name], 3)
+			if first != names[c.Book[len(c.Book)-1].Name] || len(c.Book) == 1 {
+				db.Push(extra)
+				el := db[first].Elements
+				el.Add("zz extra recipe", 5)
+				db[first].Elements = el
+				fresh := cloneDB(db)
+				err1 := rs.Resolve()
+				_, err2 := resolver.Resolve(cfg, fresh)
+				e.sum.Runs += 2
+				same := (err1 == nil) == (err2 == nil) && len(db) == len(fresh)
+				if same && err1 == nil {
+					for k, n := range fresh {
+						m, ok := db[k]
+						if !ok || len(m.Elements) != len(n.Elements) {
+							same = false
+							break
+						}
+						for i := range n.Elements {
+							if m.Elements[i] != n.Elements[i] {
+								same = false
+							}
+						}
+					}
+				}
+				if !same {
+					e.mismatch("resolver-reused-after-change", "resolver/resolver.go", fmt.Sprintf("a Resolver used again after %q gained the ingredient \"zz extra recipe\" returns %v / %v; a fresh resolver on the same book returns %v / %v", first, err1, db[first].Elements, err2, fresh[first].Elements),
+						map[string]interface{}{"case": c, "names": names})
+				}
+				err = nil
 			}
 		}
 		return nil
